@@ -359,6 +359,10 @@ def scenarios(tier: str):
     else:
         seqs += [['A', 'A', 'A'], ['An', 'A', 'S'], ['B', 'A', 'An'], ['P2', 'P1', 'Q1'], ['S', 'S', 'A'], ['A', 'An', 'A']]
     out = []
+    from . import c12_neg
+    neg = c12_neg.cases(tier)
+    for i in range(0, len(neg), 25):
+        out.append({'neg': neg[i:i + 25]})
     for ws in _waiter_sets(tier):
         for seq in seqs:
             if not _relevant(ws, seq):
@@ -369,6 +373,8 @@ def scenarios(tier: str):
 
 
 def weight(params, tier):
+    if 'neg' in params:
+        return 8
     return len(params['waiters']) * 3 + len(params['msgs'])
 
 
@@ -379,7 +385,27 @@ def _bound(params, tier):
     return 2 if size <= 2 else 1
 
 
+def _run_neg(params):
+    from . import c12_neg
+    viols, sigs, outcomes, transitions, n = [], set(), set(), 0, 0
+    for case in params['neg']:
+        out = c12_neg.run_negotiation(case)
+        n += 1
+        transitions += out['transitions']
+        outcomes.add(repr((case, out['obs'])))
+        for v in out['violations']:
+            if v.signature not in sigs:
+                sigs.add(v.signature)
+                viols.append({'clause': v.clause, 'detail': v.detail, 'signature': v.signature, 'choices': [],
+                              'deviations': [], 'case': case})
+    return {'executions': n, 'violations': viols, 'states': len(outcomes), 'transitions': transitions,
+            'outcomes': [str(hash(o)) for o in outcomes], 'nontrivial': [str(hash(o)) for o in outcomes],
+            'capped': False, 'samples': [{'case': params['neg'][0]}]}
+
+
 def run_scenario(params: dict, tier: str) -> dict:
+    if 'neg' in params:
+        return _run_neg(params)
     bound = _bound(params, tier)
     res = explore(lambda ch: run_one(params, ch), bound=bound, max_exec=200000)
     return {
@@ -391,5 +417,7 @@ def run_scenario(params: dict, tier: str) -> dict:
 
 
 def replay(params: dict, choices: list, tier: str = 'quick') -> dict:
+    if 'neg' in params:
+        return {'violations': _run_neg(params)['violations']}
     out = run_one(params, Chooser(choices))
     return {'violations': [str(v) for v in out['violations']], 'trace': out['trace'], 'obs': out['obs']}
